@@ -311,6 +311,8 @@ def manual(wd, op, old, new, log):
             for o in params["objects"]:
                 if "module" in o:
                     o["module"] = "vpk_c20.no_such_module"
+                if "file" in o:                 # a class defined in a plain file is loaded from that file
+                    o["file"] = o["file"] + ".deleted"
             p.write_text(json.dumps(params))
             applied = True
     elif kind == "rmparams":
